@@ -320,7 +320,7 @@ def check(hist: list[dict], mode: str, eps_due: float, res_order: float, qwait: 
                 elif cid in unserved and not any(unserved[cid] < j < i for j in w["entries"]):
                     # real OS: a registered readable descriptor ends a wait at once and must be dispatched before the
                     # loop waits again; two quiescent waits in a row that both start with it readable prove it is not served
-                    R.bad("watch-served", "two-quiescent-waits-while-watched-fd-readable" + ("|watch-was-registered-in-idle-callback" if (hist[w["reg"]].get("ctx") or [None, None])[1] == "idle" else "") + _last_return_truthy(hist, {c for c, x in watches.items() if x["fd"] == w["fd"]}, unserved[cid]), f"loop started two quiescent waits (events {unserved[cid]}, {i}) while watch {cid} fd {w['fd']} stayed readable and was not called", i)
+                    R.bad("watch-served", "two-quiescent-waits-while-watched-fd-readable" + ("|watch-was-registered-in-idle-callback" if (hist[w["reg"]].get("ctx") or [None, None])[1] == "idle" else _last_return_truthy(hist, {c for c, x in watches.items() if x["fd"] == w["fd"]}, unserved[cid])), f"loop started two quiescent waits (events {unserved[cid]}, {i}) while watch {cid} fd {w['fd']} stayed readable and was not called", i)
                 else:
                     unserved[cid] = i
 
